@@ -11,3 +11,7 @@ import Plonk.Props.C01Complete
 #print axioms Plonk.Props.C01Complete.completeness_algebraic
 #print axioms Plonk.Props.C01Complete.completeness_witness
 #print axioms Plonk.Props.C01Complete.completeness_witness_self
+#print axioms Plonk.Props.C01Complete.verifier_accepts
+#print axioms Plonk.Props.C01Complete.verifier_accepts_legacy
+#print axioms Plonk.Props.C01Complete.quotient_in_prove_complete
+#print axioms Plonk.Props.C01Complete.completeness_model_polys
